@@ -63,15 +63,6 @@ def es_worker(args):
     name, job, opts = args
     t0 = time.time()
     out = {'name': name, 'job': job, 'opts': opts, 'status': 'ok', 'rels': [], 'stats': {}, 'trace': {}, 'replays': []}
-    import signal
-
-    class HardTimeout(Exception):
-        pass
-
-    def on_alarm(sig, frm):
-        raise HardTimeout()
-    signal.signal(signal.SIGALRM, on_alarm)
-    signal.alarm(int(opts.get('hard_timeout_s', 3 * opts.get('budget_s', 600) + 300)))
     try:
         import sweep
         dagp, info = trace(job)
@@ -135,6 +126,31 @@ def es_worker(args):
                                      'meaning': 'a = central finite difference of the contribution, b = derivative reported through dual numbers'}
                 r['native_worst'] = worst
                 continue
+            if job['job'] == 'virial':
+                # zero-density value (a) vs Richardson-extrapolated finite-density values of the same dual part (b):
+                # b(rho) = B + O(rho); estimate = 2 b(rho/2) - b(rho)
+                x0 = pts[0]
+                est = {}
+                for rho in (2e-6, 1e-6):
+                    xx = list(x0); xx[1] = rho
+                    nat = native(job, xx)
+                    if nat is None:
+                        continue
+                    for nr in nat['rels']:
+                        if nr['name'].replace(' ', '_') == r['name']:
+                            est[rho] = (nr['a'], nr['b'])
+                if len(est) == 2:
+                    a = est[1e-6][0]
+                    lim = 2 * est[1e-6][1] - est[2e-6][1] if (_fin(est[1e-6][1]) and _fin(est[2e-6][1])) else float('nan')
+                    if not _fin(a):
+                        worst = {'x': x0, 'a': a, 'b': lim, 'dev': float('inf'), 'meaning': 'a = value at exactly zero density (as second_virial_coefficient computes it) is not finite'}
+                    elif _fin(lim):
+                        scale = max(abs(a), abs(lim), 1e-300)
+                        dev = abs(a - lim) / scale
+                        worst = {'x': x0, 'a': a, 'b': lim, 'dev': dev if dev > 1e-4 else 0.0,
+                                 'meaning': 'a = value at exactly zero density, b = Richardson limit of the finite-density code path (rho = 2e-6, 1e-6 A^-3)'}
+                r['native_worst'] = worst
+                continue
             for x in pts:
                 nat = native(job, x)
                 if nat is None:
@@ -152,31 +168,67 @@ def es_worker(args):
                         worst = {'x': x, 'a': a, 'b': b, 'dev': dev}
             r['native_worst'] = worst
         out['rels'] = rels
-    except HardTimeout:
-        out['status'] = 'timeout'
-        out['error'] = 'job exceeded its hard wall-clock limit'
     except Exception as e:
         out['status'] = 'error'
         out['error'] = traceback.format_exc()[-1500:]
-    finally:
-        signal.alarm(0)
     out['wall_s'] = time.time() - t0
     return out
 
 
+def _job_main(args, path):
+    r = es_worker(args)
+    json.dump(r, open(path, 'w'))
+
+
 def run_jobs(jobs, procs=16):
-    """jobs: list of (name, job, opts)"""
-    out = []
+    """jobs: list of (name, job, opts); one OS process per job (killed at its hard wall-clock limit: a z3 call
+    that ignores its own timeout cannot be interrupted from Python)"""
+    os.makedirs(JOBDIR, exist_ok=True)
     verbose = os.environ.get('VERIF_VERBOSE')
-    with multiprocessing.Pool(min(procs, max(1, len(jobs)))) as pool:
-        for r in pool.imap_unordered(es_worker, jobs, chunksize=1):
-            out.append(r)
+    pending = list(enumerate(jobs))
+    running = {}
+    out = {}
+    while pending or running:
+        while pending and len(running) < procs:
+            i, j = pending.pop(0)
+            path = os.path.join(JOBDIR, 'res-%d-%d.json' % (os.getpid(), i))
+            if os.path.exists(path):
+                os.remove(path)
+            pr = multiprocessing.Process(target=_job_main, args=(j, path))
+            pr.start()
+            limit = j[2].get('hard_timeout_s', 3 * j[2].get('budget_s', 600) + 300)
+            running[i] = (pr, path, time.time(), limit, j)
+        time.sleep(0.2)
+        for i in list(running):
+            pr, path, t0, limit, j = running[i]
+            if not pr.is_alive():
+                pr.join()
+                if os.path.exists(path):
+                    r = json.load(open(path)); os.remove(path)
+                else:
+                    r = {'name': j[0], 'job': j[1], 'opts': j[2], 'status': 'error', 'error': 'worker died (exit code %s)' % pr.exitcode, 'rels': [], 'stats': {}, 'trace': {}}
+            elif time.time() - t0 > limit:
+                pr.kill(); pr.join()
+                r = {'name': j[0], 'job': j[1], 'opts': j[2], 'status': 'timeout', 'error': 'killed at the hard wall-clock limit of %d s' % limit, 'rels': [], 'stats': {}, 'trace': {}, 'wall_s': time.time() - t0}
+            else:
+                continue
+            del running[i]
+            out[i] = r
             if verbose:
                 print('[es] %s %s wall=%.1fs solver=%.1fs %s' % (r['name'], r['status'], r.get('wall_s', 0), r.get('stats', {}).get('solver_s', 0),
                       [(x['name'], x['proved']) for x in r.get('rels', [])]), flush=True)
-    order = {j[0]: i for i, j in enumerate(jobs)}
-    out.sort(key=lambda r: order[r['name']])
-    return out
+    res = [out[i] for i in range(len(jobs))]
+    # one retry (different evaluation-point seed) for jobs that were killed at their wall-clock limit
+    redo = [i for i, r in enumerate(res) if r['status'] == 'timeout' and not jobs[i][2].get('_retried')]
+    if redo:
+        again = []
+        for i in redo:
+            n, j, o = jobs[i]
+            o2 = dict(o); o2['_retried'] = True; o2['seed'] = o.get('seed', 1) + 1
+            again.append((n, j, o2))
+        for i, r in zip(redo, run_jobs(again, procs)):
+            res[i] = r
+    return res
 
 
 TRUSTED = ['rustc (monomorphisation of the real generic feos code at D = Sym / Dual<Sym> / HyperDual<Sym>)',
@@ -334,14 +386,14 @@ def jobs_C09(tier, seed):
             job = {'job': 'perm', 'model': spec, 'model2': m2, 'x': x}
             if tier == 'thorough' or name in ('pr3', 'pets3'):
                 job['dual'] = 'first'
-            jobs.append(('perm/%s/%s' % (name, ''.join(map(str, p))), job, {'scale': False, 'merge_ulps': 8, 'budget_s': 600}))
+            jobs.append(('perm/%s/%s' % (name, ''.join(map(str, p))), job, {'scale': False, 'merge_ulps': 8, 'budget_s': 300}))
         for keep in subsets:
             m2 = dict(spec); m2['subset'] = keep
             jobs.append(('pad_subset/%s/%s' % (name, ''.join(map(str, keep))), {'job': 'pad', 'model': spec, 'model2': m2, 'keep': sorted(keep) if False else keep, 'x': x},
-                         {'scale': False, 'merge_ulps': 8, 'budget_s': 600}))
+                         {'scale': False, 'merge_ulps': 8, 'budget_s': 300}))
             m3 = dict(spec); m3['idx'] = keep
             jobs.append(('subset_vs_direct/%s/%s' % (name, ''.join(map(str, keep))), {'job': 'pair', 'match': 'contrib', 'model': m2, 'model2': m3, 'x': x[:3] + [x[3 + k] for k in keep]},
-                         {'scale': False, 'merge_ulps': 8, 'budget_s': 600}))
+                         {'scale': False, 'merge_ulps': 8, 'budget_s': 300}))
     # splitting: binary systems, each component entered twice in turn
     B = [('pcsaft2', {'kind': 'pcsaft', 'src': src((P + 'gross2001.json', ['propane']), (P + 'gross2002.json', ['methanol'])), 'bin': {'k_ij': 0.02}}, 300.0, 1000.0, [0]),
          ('pr2', {'kind': 'pr', 'syn': [[369.8, 41.9e5, 0.15, 44.0], [425.2, 37.9e5, 0.2, 58.0]], 'bin': 0.02}, 300.0, 1000.0, [0, 1]),
@@ -398,7 +450,7 @@ def jobs_C08(tier, seed):
     # pair 5: homosegmented group contribution vs combined record
     hg = {'src': src((P + 'gc_substances.json', ['propane', 'butane'])), 'segments': P + 'sauer2014_homo.json'}
     jobs.append(('homogc_vs_record', {'job': 'pair', 'match': 'contrib', 'model': dict(hg, kind='pcsaft_homogc'), 'model2': dict(hg, kind='pcsaft_homogc_records'), 'x': x2(300.0, 1000.0)},
-                 {'scale': False, 'merge_ulps': 8, 'budget_s': 600}))
+                 {'scale': False, 'merge_ulps': 8, 'budget_s': 300}))
     # pair 6: Peng-Robinson vs textbook closed form
     prs = {'kind': 'pr', 'syn': [[369.8, 41.9e5, 0.15, 44.0], [425.2, 37.9e5, 0.2, 58.0]], 'bin': 0.02}
     jobs.append(('pr_vs_textbook', {'job': 'pr_textbook', 'model': prs, 'x': x2(300.0, 1000.0)}, {'scale': False, 'merge_ulps': 64, 'budget_s': 600}))
@@ -410,14 +462,14 @@ def jobs_C13(tier, seed):
     for name, spec, n, T, V in systems(tier, seed):
         if 'fun' in name and tier == 'quick':
             continue
-        if name == 'epcsaft':
+        if name.startswith('epcsaft'):
             continue  # electrolyte model family: excluded by the property
         xf = [0.4, 0.6]
         for order in ((2,) if tier == 'quick' else (2, 3)):
             # x[1] is the density here; witness on the finite-density path, fixed to 0 for the limit
             x = [T, 1e-4, 1.0, 1.0, 1.0]
             jobs.append(('virial%d/%s' % (order, name), {'job': 'virial', 'model': spec, 'molefracs': xf, 'order': order, 'x': x},
-                         {'scale': False, 'fixed': {'1': 0.0}, 'budget_s': 600}))
+                         {'scale': False, 'fixed': {'1': 0.0}, 'budget_s': 200 if tier == 'quick' else 1200}))
     return jobs
 
 
